@@ -28,10 +28,65 @@ def nontrivial(prog, obs):
     return [(op['op'], len(c['cont']), ''.join(sorted({ks.get(k, '?') for k in c['cont']}))) for op, o in zip(prog['ops'], obs) if o['ok'] for _, d in o['out'] for c in histcheck.containers_of(d) if len(c['cont']) >= 2]
 
 
+def plate_observer_tie(chk, gens):
+    """the model's own array read-outs (PlateObs.v: plate_volumes, plate_get_volume, slice_volumes -- the definitions the plate
+    theorems are about) evaluated inside Coq on the same histories and compared with Plate.get_volumes / Plate.get_volume /
+    plate[1, :].get_volumes of the objects the implementation produced"""
+    import numpy
+    from fractions import Fraction as F
+    from pyplate import Plate
+    sel = [g for g in gens if any(isinstance(o, Plate) for o in g.impl.env.values())]
+    sel = sel[:12 if chk.tier == 'quick' else 120]
+    progs = [g.prog() for g in sel]
+    terms = [dsl.to_coq(p, 'showRunPlateObs') for p in progs]
+    res, errs = common.coq_eval('C10obs', histcheck.IMPORTS + ' PlateObs', terms, chunk=4)
+    if errs:
+        chk.violation('model evaluation failed: ' + errs[0][:300], {'relation': 'coq_eval C10obs', 'errors': errs[:3]}, found_input=False)
+    plates = entries = bad = 0
+    for g, prog, r in zip(sel, progs, res):
+        if r is None:
+            continue
+        k = F(histcheck.tol_scale(prog))
+        rd = common.Reader(r)
+        diffs = []
+        while not rd.done():
+            v = rd.int()
+            n = rd.int()
+            ul = [rd.q() for _ in range(n)]
+            ml = [rd.q() for _ in range(n)]
+            tot = rd.q()
+            nc = rd.int()
+            row = [rd.q() for _ in range(nc)]
+            o = g.impl.env.get(v)
+            if not isinstance(o, Plate):
+                continue        # the implementation refused where the model accepted: reported by the correspondence of the histories
+            plates += 1
+            for name, got, exp, tol in (
+                    ("get_volumes(unit='uL')", numpy.asarray(o.get_volumes(unit='uL')).flatten(), ul, F(1, 2) + F(1, 10**6) * k),
+                    ("get_volumes(unit='mL')", numpy.asarray(o.get_volumes(unit='mL')).flatten(), ml, F(51, 100000) + F(1, 10**9) * k),
+                    ("get_volume('mL')", [o.get_volume('mL')], [tot], F(51, 100000) * n + F(1, 10**9) * k),
+                    ("[1, :].get_volumes(unit='mL')", numpy.asarray(o[1, :].get_volumes(unit='mL')).flatten(), row, F(51, 100000) + F(1, 10**9) * k)):
+                if len(got) != len(exp):
+                    diffs.append(f"object {v}: {name} has {len(got)} entries, the model's array {len(exp)}")
+                    continue
+                for j, (x, y) in enumerate(zip(got, exp)):
+                    entries += 1
+                    if abs(F(float(x)) - y) > tol + abs(y) * F(1, 10**8):
+                        diffs.append(f"object {v}: {name} entry {j} is {float(x)!r}, the model's array says {float(y)!r}")
+        if diffs:
+            bad += 1
+            if bad <= 2:
+                chk.violation('model/implementation disagree: ' + diffs[0],
+                              {'relation': 'PlateObs.showRunPlateObs ~ Plate.get_volumes / get_volume', 'program': prog, 'differences': diffs[:5]},
+                              found_input=False)
+    return {'programs': len(sel), 'plates_read': plates, 'array_entries_compared': entries, 'programs_disagreeing': bad}
+
+
 def run(chk, gate, status):
     gens = make_cases(chk)
     chk.assumptions += ['observers rounded to display precision are compared within half a unit of the last displayed digit']
     cov = histcheck.run(chk, gens, oracles.c10, 'C10', RULE, nontrivial)
+    cov['plate_observer_tie'] = plate_observer_tie(chk, gens)
     for msg in oracles.wv_runtime_probe()[:2]:
         cov['oracle_failures'] += 1
         chk.violation(msg, {'kind': 'wv-runtime'})
